@@ -124,7 +124,12 @@ class RollingReduction(Expr):
                 groupby_slice=self.groupby_slice,
             )
 
-        if self.kwargs.get("center"):
+        if self.kwargs.get("center") and not isinstance(self.window, Integral):
+            # centered time-based window: rows on both sides are needed; take
+            # the whole window length on either side (a superset of the half
+            # windows, the rolling function itself selects the rows)
+            before = after = pd.Timedelta(self.window)
+        elif self.kwargs.get("center"):
             before = self.window // 2
             after = self.window - before - 1
         elif not isinstance(self.window, int):
